@@ -1,6 +1,9 @@
 import FxVerif.Model.C16
 import FxVerif.Proofs.C16Sem
 import FxVerif.Proofs.C16Store
+import FxVerif.Model.C16Tx
+import FxVerif.Proofs.C16Dep
+import FxVerif.Gen.C16Proto
 /-!
 # C16 — privileged messages take effect only when issued by the governance authority
 
@@ -9,7 +12,7 @@ statement before it, or a new authority-carrying handler appears without one, `a
 -/
 namespace FxVerif.Props.C16
 open FxVerif.Gen.C16 FxVerif.Model.C16
-open FxVerif.Gen (C16Sem.proposalExec C16Sem.helpers C16Sem.impls C16Sem.types C16Sem.services C16Sem.registrations C16Sem.msgInfos C16Sem.updateStoreProg)
+open FxVerif.Gen (C16Dep.impls C16Dep.helpers C16Dep.types C16Dep.unread C16Dep.wiring C16Dep.handlerPkgs C16Sem.proposalExec C16Sem.helpers C16Sem.impls C16Sem.types C16Sem.services C16Sem.registrations C16Sem.msgInfos C16Sem.updateStoreProg)
 
 /-- obligation over the regenerated table: every handler is guarded, or forwards to a guarded one -/
 theorem all_handlers_guarded : handlers.all (fun h => shapeOk handlers h.shape) = true := by decide
@@ -255,6 +258,306 @@ theorem routed_accepts_only_governance_account {σ : Type} (r : Registration) (h
     · exact absurd (routed_only_governance_string r hr sv hsv hpkg mm hmm hmsg hkind env hgov auth W payloadOk s h1
         (Or.inr h2)) hacc
 
+/-! ### handler level: the registered Msg servers called directly (no `ValidateBasic` in front) -/
+
+/-- obligation over the regenerated bodies: no implementation compares DECODED addresses — every one of them, run on its
+own receiver type, is protected by a comparison of the authority STRING with the keeper's authority string (`!=` or
+`!strings.EqualFold`).  A guard that decodes both sides first (and so accepts every spelling some decoder maps to the
+governance account: `0x…`, another prefix) makes this stop checking. -/
+theorem handlers_compare_strings :
+    C16Sem.impls.all (fun i => protectedAt prog 4 i.recv i.method == some .strict ||
+      protectedAt prog 4 i.recv i.method == some .fold) = true := by decide
+
+/-- the same for what is registered: every authority-carrying method of every registered service, resolved from the
+registered concrete type -/
+theorem registered_handlers_compare_strings :
+    C16Sem.registrations.all (fun r => C16Sem.services.all fun sv => sv.pkg != r.service ||
+      sv.methods.all fun mm => mm.2 == "" || protectedAt prog 4 r.impl mm.1 == some .strict ||
+        protectedAt prog 4 r.impl mm.1 == some .fold) = true := by decide
+
+/-- a comparison of strings (strict or case-folding) fails for every authority that is not a case-fold variant of the
+keeper's authority -/
+theorem string_guard_fails_of_not_fold (cfg : AddrCfg) (c : CmpK) (hc : c = .strict ∨ c = .fold) (gov auth : Str)
+    (h : foldEq gov auth = false) : relK cfg c gov auth = false := by
+  rcases hc with rfl | rfl
+  · simp only [relK, beq_eq_false_iff_ne, ne_eq]
+    intro he
+    subst he
+    simp [foldEq] at h
+  · simpa [relK] using h
+
+/-- HANDLER LEVEL, every implementation (the registered types and the per-chain servers behind the crosschain router):
+called directly — no `ValidateBasic`, no router — with an authority that is not a case-fold variant of the keeper's
+authority string, it returns an error and leaves the state it was given untouched; whatever the rest of any handler does,
+whichever route exists.  So `0x…`, another bech32 prefix, the validator-operator spelling, padding, the module NAME are
+refused by the handler itself, not only by the router's `ValidateBasic`. -/
+theorem handler_level_rejects_non_variants {σ : Type} (i : Impl) (hi : i ∈ C16Sem.impls)
+    (env : Env) (auth : Str) (W : World σ) (s : σ) (h : foldEq env.gov auth = false) :
+    exec prog env auth W 4 i.recv i.method s = (.err, s) := by
+  have hk := List.all_eq_true.mp handlers_compare_strings i hi
+  simp only [Bool.or_eq_true, beq_iff_eq] at hk
+  rcases hk with hp | hp
+  · exact protectedAt_sound prog env auth W .strict (string_guard_fails_of_not_fold env.cfg .strict (Or.inl rfl) _ _ h)
+      4 i.recv i.method s hp
+  · exact protectedAt_sound prog env auth W .fold (string_guard_fails_of_not_fold env.cfg .fold (Or.inr rfl) _ _ h)
+      4 i.recv i.method s hp
+
+/-- HANDLER LEVEL, what is registered: the same for every authority-carrying method of every registered Msg service,
+resolved from the registered concrete type through method promotion -/
+theorem registered_handler_level_rejects_non_variants {σ : Type} (r : Registration) (hr : r ∈ C16Sem.registrations)
+    (sv : Service) (hsv : sv ∈ C16Sem.services) (hpkg : sv.pkg = r.service)
+    (mm : String × String) (hmm : mm ∈ sv.methods) (hmsg : mm.2 ≠ "")
+    (env : Env) (auth : Str) (W : World σ) (s : σ) (h : foldEq env.gov auth = false) :
+    exec prog env auth W 4 r.impl mm.1 s = (.err, s) := by
+  have h1 := List.all_eq_true.mp registered_handlers_compare_strings r hr
+  have h2 := List.all_eq_true.mp h1 sv hsv
+  simp only [hpkg, bne_self_eq_false, Bool.false_or] at h2
+  have h3 := List.all_eq_true.mp h2 mm hmm
+  have hne : (mm.2 == "") = false := by simpa using hmsg
+  simp only [hne, Bool.false_or, Bool.or_eq_true, beq_iff_eq] at h3
+  rcases h3 with hp | hp
+  · exact protectedAt_sound prog env auth W .strict (string_guard_fails_of_not_fold env.cfg .strict (Or.inl rfl) _ _ h)
+      4 r.impl mm.1 s hp
+  · exact protectedAt_sound prog env auth W .fold (string_guard_fails_of_not_fold env.cfg .fold (Or.inr rfl) _ _ h)
+      4 r.impl mm.1 s hp
+
+/-- the strictly comparing implementations refuse even the case variants at handler level -/
+theorem handler_level_strict_exact {σ : Type} (T m : String) (hp : protectedAt prog 4 T m = some .strict)
+    (env : Env) (auth : Str) (W : World σ) (s : σ) (h : auth ≠ env.gov) :
+    exec prog env auth W 4 T m s = (.err, s) := by
+  apply protectedAt_sound prog env auth W .strict _ 4 T m s hp
+  simp only [relK, beq_eq_false_iff_ne, ne_eq]
+  exact fun he => h he.symm
+
+/-- with the obligation above the two router-level theorems need no side condition on the comparison kind -/
+theorem routed_accepts_only_governance_account_all {σ : Type} (r : Registration) (hr : r ∈ C16Sem.registrations)
+    (sv : Service) (hsv : sv ∈ C16Sem.services) (hpkg : sv.pkg = r.service)
+    (mm : String × String) (hmm : mm ∈ sv.methods) (hmsg : mm.2 ≠ "")
+    (env : Env) (hgov : lowerAsciiStr env.gov = true) (auth : Str) (W : World σ) (payloadOk : Bool) (s : σ)
+    (hacc : routed prog C16Sem.msgInfos env auth W payloadOk r.impl mm.1 mm.2 s ≠ (.err, s)) :
+    accAddress env.cfg auth = accAddress env.cfg env.gov := by
+  have h1 := List.all_eq_true.mp registered_handlers_compare_strings r hr
+  have h2 := List.all_eq_true.mp h1 sv hsv
+  simp only [hpkg, bne_self_eq_false, Bool.false_or] at h2
+  have h3 := List.all_eq_true.mp h2 mm hmm
+  have hne : (mm.2 == "") = false := by simpa using hmsg
+  simp only [hne, Bool.false_or, Bool.or_eq_true, beq_iff_eq] at h3
+  have hkind : protectedAt prog 4 r.impl mm.1 ≠ some .addr := by
+    rcases h3 with hp | hp <;> rw [hp] <;> simp
+  exact routed_accepts_only_governance_account r hr sv hsv hpkg mm hmm hmsg hkind env hgov auth W payloadOk s hacc
+
+/-- the crosschain router: without a route for the message's chain the forwarding implementation errors with the state
+untouched, before any per-chain server runs -/
+theorem no_route_rejected {σ : Type} (P : Program) (env : Env) (auth : Str) (W : World σ) (f : Nat) (T m : String) (s : σ)
+    (hn : needsRoute P T m = true) (hr : W.routeOk = false) : exec P env auth W (f + 1) T m s = (.err, s) := by
+  unfold needsRoute at hn
+  simp only [exec]
+  cases hres : resolve P T m with
+  | none => simp [hres] at hn
+  | some impl =>
+    simp only [hres] at hn ⊢
+    generalize impl.body = body at hn
+    induction body with
+    | nil => simp [needsRouteBody] at hn
+    | cons st rest ih =>
+      cases st with
+      | nop _ => simp only [needsRouteBody] at hn; simp only [execBody]; exact ih hn
+      | forward nr ts m' =>
+        cases nr with
+        | true => simp [execBody, hr]
+        | false => simp [needsRouteBody] at hn
+      | rejectIf _ => simp [needsRouteBody] at hn
+      | work _ _ => simp [needsRouteBody] at hn
+
+/-! ### who has to have signed: transactions, `MsgExec`, proposals -/
+
+/-- obligation over the regenerated .proto facts: every message of /repo/proto with a `string authority` field declares
+exactly that field as its signer (`option (cosmos.msg.v1.signer) = "authority"`), which is what makes `txRun` / `authzRun` /
+`proposalRun` take the decoded authority as the account that has to have signed (the compiled descriptors are what
+runs: the harness compares `GetMsgV1Signers` of the running codec with the decoded authority for every such message) -/
+theorem authority_messages_signed_by_authority :
+    FxVerif.Gen.C16Proto.msgs.all (fun m => !m.2.2 || m.2.1 == ["authority"]) = true ∧
+    (FxVerif.Gen.C16Proto.msgs.filter (fun m => m.2.2)).length ≥ 11 := by decide
+
+/-- through the router, an authority that does not decode to the account the keeper's authority decodes to is rejected
+with the state untouched (contrapositive of `routed_accepts_only_governance_account_all`) -/
+theorem routed_rejects_other_accounts {σ : Type} (r : Registration) (hr : r ∈ C16Sem.registrations)
+    (sv : Service) (hsv : sv ∈ C16Sem.services) (hpkg : sv.pkg = r.service)
+    (mm : String × String) (hmm : mm ∈ sv.methods) (hmsg : mm.2 ≠ "")
+    (env : Env) (hgov : lowerAsciiStr env.gov = true) (auth : Str) (W : World σ) (payloadOk : Bool) (s : σ)
+    (h : accAddress env.cfg auth ≠ accAddress env.cfg env.gov) :
+    routed prog C16Sem.msgInfos env auth W payloadOk r.impl mm.1 mm.2 s = (.err, s) :=
+  Classical.byContradiction fun hc =>
+    h (routed_accepts_only_governance_account_all r hr sv hsv hpkg mm hmm hmsg env hgov auth W payloadOk s hc)
+
+theorem onBranch_of_err {σ : Type} (f : σ → Res × σ) (s : σ) (h : f s = (.err, s)) : onBranch f s = (.err, s) := by
+  simp [onBranch, h]
+
+theorem onBranch_err_state {σ : Type} (f : σ → Res × σ) (s : σ) (h : (onBranch f s).1 = .err) : (onBranch f s).2 = s := by
+  unfold onBranch at h ⊢
+  cases hf : f s with
+  | mk r s' => cases r <;> simp [hf] at h ⊢
+
+/-- SIGNED TRANSACTIONS: a transaction signed with the key of any account other than the governance module account
+(which has no key) cannot make a privileged message take effect, whatever authority string the message carries, whatever
+the payload, whatever the handlers do after their guards: either `ValidateBasic` refuses it, or the ante handler does
+(the authority does not decode, or decodes to an account that did not sign), or — the authority being the signer's own
+address — the handler's guard does; the state the messages see is untouched. -/
+theorem signed_tx_needs_governance_key {σ : Type} (r : Registration) (hr : r ∈ C16Sem.registrations)
+    (sv : Service) (hsv : sv ∈ C16Sem.services) (hpkg : sv.pkg = r.service)
+    (mm : String × String) (hmm : mm ∈ sv.methods) (hmsg : mm.2 ≠ "")
+    (env : Env) (hgov : lowerAsciiStr env.gov = true) (g : List Nat) (hg : accAddress env.cfg env.gov = some g)
+    (signer : List Nat) (hs : signer ≠ g) (auth : Str) (W : World σ) (payloadOk : Bool) (s : σ) :
+    (txRun prog C16Sem.msgInfos env auth W payloadOk r.impl mm.1 mm.2 signer s).2 = (.err, s) := by
+  unfold txRun
+  split
+  · rfl
+  · cases ha : accAddress env.cfg auth with
+    | none => rfl
+    | some bz =>
+      simp only
+      by_cases hb : bz = signer
+      · subst hb
+        simp only [bne_self_eq_false, Bool.false_eq_true, ↓reduceIte]
+        apply onBranch_of_err
+        apply routed_rejects_other_accounts r hr sv hsv hpkg mm hmm hmsg env hgov auth W payloadOk s
+        rw [ha, hg]
+        intro he
+        exact hs (Option.some.inj he)
+      · have : (bz != signer) = true := by simpa using hb
+        simp [this]
+
+/-- `x/authz`: a `MsgExec` signed by a grantee other than the governance module account cannot make a privileged message
+take effect (no account other than the message's own signer is accepted without a grant, and the governance module
+account grants nothing — monitored on the running app) -/
+theorem authz_exec_needs_governance_grantee {σ : Type} (r : Registration) (hr : r ∈ C16Sem.registrations)
+    (sv : Service) (hsv : sv ∈ C16Sem.services) (hpkg : sv.pkg = r.service)
+    (mm : String × String) (hmm : mm ∈ sv.methods) (hmsg : mm.2 ≠ "")
+    (env : Env) (hgov : lowerAsciiStr env.gov = true) (g : List Nat) (hg : accAddress env.cfg env.gov = some g)
+    (grantee : List Nat) (hs : grantee ≠ g) (auth : Str) (W : World σ) (payloadOk : Bool) (s : σ) :
+    (authzRun prog C16Sem.msgInfos env auth W payloadOk r.impl mm.1 mm.2 grantee s).2 = (.err, s) := by
+  unfold authzRun
+  split
+  · rfl
+  · cases ha : accAddress env.cfg auth with
+    | none => rfl
+    | some bz =>
+      simp only
+      by_cases hb : bz = grantee
+      · subst hb
+        simp only [bne_self_eq_false, Bool.false_eq_true, ↓reduceIte]
+        apply onBranch_of_err
+        apply routed_rejects_other_accounts r hr sv hsv hpkg mm hmm hmsg env hgov auth W payloadOk s
+        rw [ha, hg]
+        intro he
+        exact hs (Option.some.inj he)
+      · have : (bz != grantee) = true := by simpa using hb
+        simp [this]
+
+/-- PROPOSALS: a privileged message executed by a passed proposal carries an authority that decodes to the governance
+module account — by the submission check and, independently, by the handler's guard behind the router -/
+theorem proposal_effect_only_governance_account {σ : Type} (P : Program) (infos : List MsgInfo) (env : Env) (auth : Str)
+    (W : World σ) (payloadOk : Bool) (T m msg : String) (s : σ)
+    (h : (proposalRun P infos env auth W payloadOk T m msg s).2.1 = .ok) :
+    (accAddress env.cfg auth).isSome = true ∧ accAddress env.cfg auth = accAddress env.cfg env.gov := by
+  unfold proposalRun at h
+  split at h
+  · simp at h
+  · split at h
+    · simp at h
+    · rename_i hc
+      simp only [Bool.or_eq_true, Option.isNone_iff_eq_none, bne_iff_ne, ne_eq, not_or, Decidable.not_not] at hc
+      refine ⟨?_, hc.2⟩
+      cases hh : accAddress env.cfg auth with
+      | none => exact absurd hh hc.1
+      | some _ => rfl
+
+/-- every one of the three ways in is all-or-nothing for the state the messages see: a failure at any stage (stateless
+validation, ante handler, grant lookup, submission check, guard, work that fails after writing) leaves it exactly as it was -/
+theorem tx_failure_leaves_state {σ : Type} (P : Program) (infos : List MsgInfo) (env : Env) (auth : Str) (W : World σ)
+    (payloadOk : Bool) (T m msg : String) (who : List Nat) (s : σ) :
+    ((txRun P infos env auth W payloadOk T m msg who s).2.1 = .err → (txRun P infos env auth W payloadOk T m msg who s).2.2 = s) ∧
+    ((authzRun P infos env auth W payloadOk T m msg who s).2.1 = .err → (authzRun P infos env auth W payloadOk T m msg who s).2.2 = s) ∧
+    ((proposalRun P infos env auth W payloadOk T m msg s).2.1 = .err → (proposalRun P infos env auth W payloadOk T m msg s).2.2 = s) := by
+  refine ⟨?_, ?_, ?_⟩
+  · unfold txRun
+    split
+    · intro _; rfl
+    · cases accAddress env.cfg auth with
+      | none => intro _; rfl
+      | some bz =>
+        simp only
+        split
+        · intro _; rfl
+        · exact onBranch_err_state _ s
+  · unfold authzRun
+    split
+    · intro _; rfl
+    · cases accAddress env.cfg auth with
+      | none => intro _; rfl
+      | some bz =>
+        simp only
+        split
+        · intro _; rfl
+        · exact onBranch_err_state _ s
+  · unfold proposalRun
+    split
+    · intro _; rfl
+    · split
+      · intro _; rfl
+      · exact onBranch_err_state _ s
+
+/-- the three ways in do let the governance account through (non-vacuity of the stages): with the keeper's authority
+itself, signed for by the account it decodes to, the message reaches the router -/
+theorem governance_reaches_router {σ : Type} (P : Program) (infos : List MsgInfo) (env : Env) (W : World σ)
+    (T m msg : String) (g : List Nat) (hg : accAddress env.cfg env.gov = some g) (s : σ) :
+    (txRun P infos env env.gov W true T m msg g s).1 = .msgs ∧ (proposalRun P infos env env.gov W true T m msg s).1 = .msgs := by
+  constructor
+  · simp [txRun, basicOk, hg]
+  · simp [proposalRun, basicOk, hg]
+
+/-! ### the dependency handlers (Cosmos SDK / IBC / ethermint), regenerated from the module cache -/
+
+/-- obligation over `Gen/C16Dep.lean`: every keeper package the app imports could be read, and every dependency handler
+whose request carries an authority — except the listed `MsgExecLegacyContent` — starts (after statements that cannot
+touch state) with a rejecting `if` that must fire whenever the request's authority is not the keeper's authority string
+(a bare `!=`, or a helper made of reject-only checks one of which is that `!=`) -/
+theorem dependency_handlers_guarded :
+    C16Dep.unread = [] ∧
+    C16Dep.impls.all (fun i => depExceptions.contains i.msg ||
+      depProtected depProg i.recv i.method == some .strict) = true := by decide
+
+/-- obligation over the regenerated wiring facts: every dependency keeper constructor called in app/keepers/keepers.go that
+has a parameter named `authority` (found in the constructor's declaration in the module cache) is passed `authAddr`
+(= `authtypes.NewModuleAddress(govtypes.ModuleName).String()`, `authority_wired_to_gov`) or the governance module address
+itself; and every package that contributes a dependency handler is constructed there -/
+theorem dependency_authority_wired_to_gov :
+    C16Dep.wiring.all (fun w => w.2.2 == "authAddr" || w.2.2 == "authtypes.NewModuleAddress(govtypes.ModuleName)" ||
+      w.2.2 == "authtypes.NewModuleAddress(govtypes.ModuleName).String()") = true ∧
+    C16Dep.handlerPkgs.all (fun p => C16Dep.wiring.any (fun w => w.1 == p)) = true ∧
+    C16Dep.handlerPkgs.length ≥ 10 := by decide
+
+/-- every dependency handler (all but the listed exception), called directly with an authority string other than the
+keeper's, returns an error and leaves the state untouched — for every payload, state and whatever the rest of the
+handler does.  (That each dependency keeper's authority is the governance module account is the wiring in
+app/keepers/keepers.go: `authAddr` / `authtypes.NewModuleAddress(govtypes.ModuleName)`, `authority_wired_to_gov`
+for the ones with a module-address argument; the running app's values are monitored.) -/
+theorem dependency_handler_rejects {σ : Type} (i : Impl) (hi : i ∈ C16Dep.impls) (hx : depExceptions.contains i.msg = false)
+    (env : Env) (auth : Str) (W : World σ) (s : σ) (h : auth ≠ env.gov) :
+    exec depProg env auth W 4 i.recv i.method s = (.err, s) := by
+  have hk := List.all_eq_true.mp dependency_handlers_guarded.2 i hi
+  simp only [hx, Bool.false_or, beq_iff_eq] at hk
+  apply depProtected_sound depProg env auth W .strict _ 3 i.recv i.method s hk
+  simp only [relK, beq_eq_false_iff_ne, ne_eq]
+  exact fun he => h he.symm
+
+/-- the one-sided procedure agrees with the exact one on every fx-core guard: whatever `guardCmp` classifies, `mustReject`
+classifies the same way (so the dependency theorem is not a weaker reading of the same shapes) -/
+theorem must_reject_extends_guard_cmp :
+    C16Sem.impls.all (fun i => match firstGuard i.body with
+      | some g => guardCmp C16Sem.helpers g == mustReject C16Sem.helpers g
+      | none => true) = true := by decide
+
 /-- the guard is not vacuous: with the keeper's authority itself a guarded body runs its rest -/
 theorem gov_authority_passes_guard {σ : Type} (i : Impl) (hi : i ∈ C16Sem.impls) (g : BExpr) (rest : List Stmt)
     (hb : i.body = .rejectIf g :: rest) (env : Env) (W : World σ) (call : String → String → σ → Res × σ) (s : σ) :
@@ -473,7 +776,17 @@ example : handlers.any (fun h => match h.shape with | .forward _ => true | _ => 
 example : ∃ gov auth : List Char, lowerAscii gov ≠ lowerAscii auth := ⟨['a'], ['b'], by decide⟩
 example : updateStore ['g'] ['g'] [⟨true, [1], [], [7]⟩] [] = (.ok, [([1], [7])]) := by decide
 
+example : C16Dep.impls.length ≥ 15 := by decide
+example : C16Dep.impls.any (fun i => depExceptions.contains i.msg) = true := by decide
+example : depProtected depProg "github.com/cosmos/cosmos-sdk/x/distribution/keeper.msgServer" "CommunityPoolSpend" = some .strict := by decide
 example : C16Sem.impls.length ≥ 11 := by decide
+example : ∃ gov auth : Str, foldEq gov auth = false := ⟨[103], [48, 120], by decide⟩
+-- the governance module account of a chain with the `cosmos` prefix decodes, and other accounts exist
+example : (accAddress ⟨strOf "cosmos", 1, 255⟩ (strOf "cosmos10d07y265gmmuvt4z0w9aw880jnsr700j6zn9kn")).isSome = true := by decide +kernel
+example : lowerAsciiStr (strOf "cosmos10d07y265gmmuvt4z0w9aw880jnsr700j6zn9kn") = true := by decide
+example : needsRoute prog "x/crosschain/keeper.msgServer" "UpdateParams" = true := by decide
+example : needsRoute prog "x/crosschain/keeper.MsgServer" "UpdateParams" = false := by decide
+example : C16Sem.impls.any (fun i => protectedAt prog 4 i.recv i.method == some .fold) = true := by decide
 example : protectedAt prog 4 "x/crosschain/keeper.msgServer" "UpdateParams" = some .strict := by decide
 example : protectedAt prog 4 "x/evm/keeper.Keeper" "CallContract" = some .fold := by decide
 example : (runProg ["erc20"] C16Sem.updateStoreProg [⟨"erc20", [1], [], [7]⟩, ⟨"erc20", [1], [7], [8]⟩] []).1 = true := by decide
